@@ -270,7 +270,7 @@ def run(tier, replay=None):
     chk.cov["ac_certificate"] = {"company_tables_checked": len(acl), "cert_ok": ac_ok}
     if lres.get("driver_ok"):
         # construction tie (Thm/AcBuild): the Lean model of ahocorasick.c must build EXACTLY the shared tables from the logged atoms
-        found = acbuild.report(chk, acbuild.compare(outs), {x.split(" ", 1)[0]: x for x in lines}, "company") or found
+        found = acbuild.report(chk, acbuild.compare(outs, {x.split(" ", 1)[0]: x.rsplit("buf=", 1)[1] for x in lines if "buf=" in x}), {x.split(" ", 1)[0]: x for x in lines}, "company") or found
         chk.cov["ac_certificate"]["construction_model_equal"] = dict(acbuild.compare.last)
         if not replay:
             found = acbuild.run_extra(chk, b, core.rng("C05-acbuild"), "mixed", tier) or found
